@@ -10,6 +10,13 @@ Calibration
 * dask `where=`/`out=` are exercised through da.<ufunc>(x, y, where=mask, out=o); with
   `where=` NumPy leaves unselected output elements uninitialised unless `out=` is given,
   so `where=` is only generated together with `out=`.
+
+Sibling facet (vf/mon/siblings.py): every case is also built a second time with ONE result-relevant parameter changed
+(another scalar / NumPy operand / astype target / clip bound, else another operation of the same family).
+The two lazily built collections must not share output keys unless their stand-alone values are equal (label
+``<op>:<param>-not-in-name:siblings-share-keys``); for a seeded ~15 % of the cases both are also computed in one graph and
+compared with their stand-alone values (``<op>:<param>:differs-when-computed-with-sibling``).  Counters siblings_built /
+siblings_computed_together / siblings_with_different_values have floors.
 """
 from __future__ import annotations
 
